@@ -156,6 +156,30 @@ func (c *Check) respondRules(prefix string) {
 				earnEv = ev
 			}
 		}
+		if earnEv == nil {
+			// the earn function may be called inside a helper ("pay the request"): its call on the helper's arguments
+			for _, ev := range pa.Events {
+				if ev.Kind != EvCall || ev.CI.fn == nil || !ev.CI.fn.isHandWritten() || ev.CI.fn.Body == nil || ev.CI.fn == f {
+					continue
+				}
+				m := map[string]*Term{}
+				for i, a := range ev.CI.args {
+					m[fmt.Sprintf("P%d", i)] = a
+				}
+				if ev.CI.recv != nil {
+					m["Precv"] = ev.CI.recv
+				}
+				for _, dc := range c.deepCalls(ev.CI.fn, 2) {
+					if dc.Fn == u.EF && earnEv == nil {
+						ci := &callInfo{name: dc.Name, fn: dc.Fn}
+						for _, a := range dc.Args {
+							ci.args = append(ci.args, a.Subst(m))
+						}
+						earnEv = &Event{Kind: EvCall, Pos: dc.Pos, CI: ci}
+					}
+				}
+			}
+		}
 		for _, e := range effs {
 			switch {
 			case isFeeRefund(e):
@@ -230,7 +254,9 @@ func (c *Check) respondRules(prefix string) {
 			}
 		}
 		if len(earns) == 1 {
-			if earnEv == nil || len(earnEv.CI.args) < 3 || earnEv.CI.args[1].String() != prov || earnEv.CI.args[2].String() != "(.Request.ServiceFee "+R+")" {
+			// the matched provider: the responder, or the request's own provider it was checked to equal
+			okProv := earnEv != nil && len(earnEv.CI.args) >= 3 && (earnEv.CI.args[1].String() == prov || earnEv.CI.args[1].String() == "(.Request.Provider "+R+")")
+			if !okProv || earnEv.CI.args[2].String() != "(.Request.ServiceFee "+R+")" {
 				got := "-"
 				if earnEv != nil {
 					got = fmtTerms(earnEv.CI.args)
@@ -518,7 +544,7 @@ func (c *Check) withdrawRules(prefix string) {
 	var ownerP, provP string
 	// owner = the parameter that keys the owner-total scan; provider = the one tested for emptiness
 	for _, e := range c.P.SummaryOf(f).Effs {
-		if e.Kind == "store" && e.Op == "Iter" && e.Family == "0x19" && e.Must {
+		if e.Kind == "store" && e.Op == "Iter" && e.Family == "0x19" {
 			if k := keyArgs(e); len(k) == 1 && k[0].Op == "" {
 				ownerP = k[0].At
 			}
